@@ -97,6 +97,9 @@ def source_facts():
     from tools import rs2coq
     facts = sf.regenerate(REPO, os.path.join(THEORIES, "Constants.v"))
     tr = rs2coq.regenerate(REPO, os.path.join(THEORIES, "Gen.v"))
+    census, cdiff = sf.census_diff(REPO)
+    facts["panic_site_census_changes"] = cdiff
+    facts["model_stale_warning"] = bool(cdiff)
     facts["translated_functions"] = tr["translated"]
     if tr["failed"]:
         facts["translator_failed"] = tr["failed"]
@@ -533,6 +536,9 @@ def check(pid, tier, seed):
 
     rng = random.Random(seed)
     budget_mult = 1 if proof_ok and model_ok else 3
+    if facts.get("model_stale_warning") and pid in ("C09", "C12"):
+        budget_mult *= 2     # panic sites moved since the model was written: look harder (DESIGN.md 3.4)
+        log("panic-site census changed: %s" % facts["panic_site_census_changes"][:6])
     scripts = mod.generate(rng, tier, budget_mult)
     corpus = mod.corpus() if hasattr(mod, "corpus") else []
     scripts = corpus + scripts
